@@ -236,7 +236,7 @@ impl Check for C13 {
         "C13"
     }
     fn workloads(&mut self, tier: Tier, _seed: u64) -> Vec<(String, u64)> {
-        let k = if tier == Tier::Quick { 1 } else { 25 };
+        let k = if tier == Tier::Quick { 8 } else { 100 };
         vec![("dyn-serialized".into(), 30_000 * k), ("doc-as-value".into(), 20_000 * k), ("doc-as-inferred-shape".into(), 25_000 * k), ("doc-as-foreign-shape".into(), 10_000 * k), ("try_from-vs-text".into(), 25_000 * k), ("value-as-target".into(), 15_000 * k), ("variant-respelled".into(), 15_000 * k)]
     }
     fn run(&mut self, ctx: &mut Ctx, workload: &str, index: u64, rng: &mut Rng) {
